@@ -326,6 +326,19 @@ def run_real(impl, state, index, data):
                 "r = v.validate(%r)\nprint(json.dumps([bool(r[0]), bool(r[1]), int(r[2]), int(r[3])]))" % (state, index, bytes(data)))
         out = R.run_py(code, env={"AUTOBAHN_USE_NVX": "0"})
         return tuple(out) if isinstance(out, list) else out
+    if impl == "nvx-wrapper":
+        # the cffi wrapper of the working tree on top of the installed native module; the carried context is
+        # established by feeding a prefix that drives the validator into it
+        prefix = {0: b"", 2: b"\xc2", 3: b"\xe1", 7: b"\xf1", 4: b"\xe0", 5: b"\xed", 6: b"\xf0", 8: b"\xf4",
+                  1: b"\xff"}.get(state)
+        if prefix is None:
+            return {"error": "state not reachable"}
+        code = ("import json\nfrom autobahn.nvx._utf8validator import Utf8Validator\n"
+                "v = Utf8Validator(); p = %r; r0 = v.validate(p); off = r0[3]\n"
+                "r = v.validate(%r)\nprint(json.dumps([bool(r[0]), bool(r[1]), int(r[2]), int(r[3]) - off + %d]))"
+                % (prefix, bytes(data), index))
+        out = R.run_py(code)
+        return tuple(out) if isinstance(out, list) else out
     import ctypes
     so = R.build_c("src/autobahn/nvx/_utf8validator.c", "utf8vld")
     try:
@@ -351,6 +364,8 @@ def replay(o):
     unit = o.get("unit") or o.get("name", "")
     if "utf8validator:Utf8Validator.validate" in unit and "nvx" not in unit:
         impl, st, idx, data = "py", inp.get("self._state"), inp.get("self._index"), R.to_bytes(inp.get("ba"))
+    elif "autobahn.nvx._utf8validator:Utf8Validator.validate" in unit:
+        impl, st, idx, data = "nvx-wrapper", inp.get("self._vld.state"), inp.get("self._vld.total_index"), R.to_bytes(inp.get("ba"))
     elif "_nvx_utf8vld_validate_table" in unit:
         impl, st, idx, data = "c-table", inp.get("utf8vld.state"), inp.get("utf8vld.total_index"), R.to_bytes(inp.get("data"))
     elif "_nvx_utf8vld_validate_unrolled" in unit:
